@@ -103,14 +103,50 @@ def _has(frames, *seq):
     return any(tuple(frames[i:i + n]) == seq for i in range(len(frames) - n + 1))
 
 
+def left_operand_sites():
+    """The PATTERN of finding C15.leak_sub_operand_type_error, read from the source that is being checked: every line of
+    blocc/parse_expression.cpp of the shape
+        new OpXXXExpression(assertType[Uniform](result, T, p, ctx, false), assertType[Uniform](Q(), T, p, ctx))
+    inside production P. The right operand is parsed (Q()) before the left one is checked; when the left check throws,
+    the right operand — allocated below the call Q() on THAT line of P — is lost. -> set of (Q, P, line)"""
+    sites = set()
+    try:
+        src = open(os.path.join(build.REPO, "blocc", "parse_expression.cpp"), encoding="latin-1").read().split("\n")
+    except OSError:
+        return sites
+    fn = None
+    for no, ln in enumerate(src, 1):
+        m = re.match(r"Expression \* ParseExpression::(\w+)\(", ln)
+        if m:
+            fn = m.group(1)
+        m = re.search(r"new Op\w+Expression\(assertType(?:Uniform)?\(result, [^()]*, false\), assertType(?:Uniform)?\((\w+)\(\),", ln)
+        if m and fn:
+            sites.add(("bloc::ParseExpression::" + m.group(1), "bloc::ParseExpression::" + fn, no))
+    return sites
+
+
+_SITES = None
+
+
+def at_left_operand_site(rec):
+    """is this LeakSanitizer record an allocation below `Q()` called from one of the pattern's lines?"""
+    global _SITES
+    if _SITES is None:
+        _SITES = left_operand_sites()
+    fl = rec["lines"]
+    return any((fl[i][0], fl[i + 1][0], fl[i + 1][1]) in _SITES for i in range(len(fl) - 1))
+
+
 LEAK_SIGNATURES = [
     # repaired (status fixed): kept so that a leak at this site is named in the violation it now raises
     (KF_L_ENV, lambda fr: "bloc::FunctorManager::createEnv" in fr),
     (KF_L_IF, lambda fr: _has(fr, "bloc::ParseExpression::expression", "bloc::IFStatement::parse")),
     (KF_L_RET, lambda fr: fr[:1] == ["bloc::RETURNStatement::parse"]),
     (KF_L_MEMB, lambda fr: bool(fr) and re.match(r"bloc::(ItemExpression|Member[A-Z]+Expression)::parse$", fr[0]) is not None),
-    (KF_L_SUB, lambda fr: _has(fr, "bloc::ParseExpression::term", "bloc::ParseExpression::sum")),
 ]
+# KF_L_SUB is not in this list: it is identified by allocation site (at_left_operand_site) and bounded by the number of
+# left-operand type errors the case provoked (meta["lsub_n"]); see judge_case
+
 PARSE_LEAKS = {KF_L_IF, KF_L_RET, KF_L_MEMB, KF_L_SUB}
 
 TRUNC_PROGS = [
@@ -133,14 +169,16 @@ ACCS = "binlxtuc"
 
 
 def leak_records(err):
+    """-> [{kind, frames (names of /repo frames, innermost first), lines [(name, line)], nobj}]"""
     recs = []
     for rec in re.split(r"\n(?=(?:Direct|Indirect) leak of)", err):
         if not rec.startswith(("Direct leak", "Indirect leak")):
             continue
         kind = rec.split(" ", 1)[0]
+        m = re.match(r"\w+ leak of \d+ byte\(s\) in (\d+) object\(s\)", rec)
         frames = re.findall(r"#\d+ \S+ in (.+?) (/\S+?):(\d+)", rec)
-        repo = [f.split("(")[0] for f, p, l in frames if "/blocc/" in p and "bloc_capi" not in p]
-        recs.append((kind, repo))
+        repo = [(f.split("(")[0], int(l)) for f, p, l in frames if "/blocc/" in p and "bloc_capi" not in p]
+        recs.append({"kind": kind, "frames": [f for f, _ in repo], "lines": repo, "nobj": int(m.group(1)) if m else 1})
     return recs
 
 
@@ -270,9 +308,14 @@ class SeqGen:
     that the sequences respect the documented preconditions and the texts it calls valid do compile."""
     NC, NS, NV, NE, NX = 4, 8, 16, 4, 4
 
-    def __init__(self, rng, badp, bade, maxlen, leaky=0.01):
+    def __init__(self, rng, badp, bade, maxlen, leaky=0.01, nhand=None, genp=(), gene=()):
         self.r = rng
         self.badp, self.bade = badp, bade
+        # the catalogs are: hand-written entries (the last two / the last one leak: recorded findings), then the operator
+        # texts the typing model rejects; genp / gene = [(catalog index, leaks?)] of the latter
+        self.nhp, self.nhe = nhand if nhand else (len(badp), len(bade))
+        self.genp, self.gene = list(genp), list(gene)
+        self.nleaky = 0
         self.maxlen = maxlen
         self.leaky = leaky
         self.ctx = [None] * self.NC
@@ -685,10 +728,19 @@ class SeqGen:
         cx = self.ctx[c]
         self.bump(c)
         if r.random() < 0.22:
-            nb = len(self.bade) - 1
-            k = r.randrange(nb) if r.random() > self.leaky else len(self.bade) - 1
-            if k == len(self.bade) - 1:
+            if self.gene and r.random() < 0.25:
+                # an operator text rejected by the typing model; a `var` form in a context without the variables is
+                # an undefined symbol (the model says so)
+                k, lk = r.choice(self.gene)
+                if lk and r.random() > 20 * self.leaky:
+                    k, lk = r.choice([g for g in self.gene if not g[1]])
+            else:
+                nb = self.nhe - 1
+                k = r.randrange(nb) if r.random() > self.leaky else self.nhe - 1
+                lk = k == self.nhe - 1
+            if lk:
                 self.flags.add(KF_L_SUB)
+                self.nleaky += 1
             self.emit(EBAD(c, e, k, self.bade[k]))
             return True
         names = sorted(cx["typed"] | cx["any"])
@@ -751,10 +803,18 @@ class SeqGen:
         self.bump(c)
         pos = r.choice([0, 1, 1])
         if r.random() < 0.25:
-            nclean = len(self.badp) - 2
-            if r.random() < self.leaky:
-                k = r.choice([len(self.badp) - 2, len(self.badp) - 1])
-                self.flags.add(KF_L_SUB if k == len(self.badp) - 2 else KF_L_IF)
+            nclean = self.nhp - 2
+            if self.genp and r.random() < 0.25:
+                k, lk = r.choice(self.genp)
+                if lk and r.random() > 20 * self.leaky:
+                    k, lk = r.choice([g for g in self.genp if not g[1]])
+                if lk:
+                    self.flags.add(KF_L_SUB)
+                    self.nleaky += 1
+            elif r.random() < self.leaky:
+                k = r.choice([self.nhp - 2, self.nhp - 1])
+                self.flags.add(KF_L_SUB if k == self.nhp - 2 else KF_L_IF)
+                self.nleaky += k == self.nhp - 2
             else:
                 k = r.randrange(nclean)
             self.emit(XBAD(c, x, k, self.badp[k], pos))
@@ -888,14 +948,20 @@ class C15(Check):
             "of every type, 4 expressions, 4 executables), length <= 40 (quick) / 200 (thorough), error-producing texts and "
             "programs interleaved at every step (22-25% of the parses are rejected texts from the model's catalog, 14% of the "
             "template programs raise at run time); plus a fixed corpus: every typed accessor x every value type x null/not, "
+            "the operator family (every operator spelling x 5 operand forms x {integer,string,boolean}^2 operand types x "
+            "{bloc_parse_expression, bloc_parse_executable}, generated in the model: rejected iff Typing.acceptBin/acceptUn rejects; "
+            "code, position, context still usable, leak bounded by the number of left-operand type errors at the source lines of "
+            "the pattern), "
             "the witnesses of the recorded findings, every truncation of 7 programs (leak verdict only). Each call's "
             "result, out-parameters, re-read library-owned pointers and bloc_errno/bloc_strerror state are compared token by "
             "token with the Lean handle state machine; ASan/UBSan watch every call; after the caller freed everything "
             "LeakSanitizer decides whether memory remains. distinct = distinct (op kind, impl token class) pairs.")
     assumptions = [
         "memory reclamation is NOT modelled: 'no memory remains allocated' is LeakSanitizer's verdict in the harness, never a theorem",
-        "texts the parser rejects come from a catalog inside the model (source, code, position, symbols registered before the error), "
-        "observed on the pinned tree and re-observed on every run; the parser itself is not modelled here (C11-C13)",
+        "texts the parser rejects come from catalogs inside the model (source, code, position, symbols registered before the error): "
+        "a hand-written part observed on the pinned tree, and the operator texts GENERATED from the typing model (Model/Typing.lean: "
+        "rejected iff acceptBin/acceptUn rejects the operand types; position = last character of the text); both re-observed on every "
+        "run; the parser itself is not modelled here (C11-C13)",
         "values/evaluation are those of Model/Interp.lean + Model/Ops.lean (tied to the code by C02-C10 correspondences)",
         "bloc_break from a second thread during a run, tracing and plugins are outside this check (C14, C16, C17)",
     ]
@@ -917,12 +983,27 @@ class C15(Check):
     # ------------------------------------------------------------ catalog (single source of truth: the Lean model)
     def catalog(self):
         ans = run.run_driver(["r c15bad"]).get("r", "")
-        m = re.match(r"progs=(\S*) exprs=(\S*)$", ans)
+        m = re.match(r"progs=(\S*) exprs=(\S*) hand=(\d+),(\d+)$", ans)
         if not m:
             self.broken_ties.append("driver: command c15bad gave %r" % ans[:200])
             return [], []
         dec = lambda s: [bytes.fromhex(h).decode("utf-8") for h in s.split(",")]
+        self.nhand = (int(m.group(3)), int(m.group(4)))
         return dec(m.group(1)), dec(m.group(2))
+
+    def opcases(self):
+        """The operator cases generated inside the model (driver command c15ops): spelling x operand form x operand
+        types, with the verdict of the typing model. Case i is addressed by the model text `@i`."""
+        ans = run.run_driver(["r c15ops"]).get("r", "")
+        if not ans.startswith("ops="):
+            self.broken_ties.append("driver: command c15ops gave %r" % ans[:200])
+            return []
+        out = []
+        h = lambda x: bytes.fromhex(x).decode("utf-8")
+        for i, w in enumerate(ans[4:].split(",")):
+            f = w.split(":")
+            out.append({"i": i, "spell": h(f[0]), "form": f[1], "verdict": f[2], "bad": f[3], "esrc": h(f[4]), "psrc": h(f[5]), "unary": f[6] == "u"})
+        return out
 
     # ------------------------------------------------------------ cases
     def mk(self, cid, ops, meta=None):
@@ -931,6 +1012,9 @@ class C15(Check):
 
     def corpus(self, badp, bade):
         C = []
+        allp, alle = badp, bade
+        # the hand-written part of the catalogs (the operator texts behind it have their own family: op_family)
+        badp, bade = badp[:self.nhand[0]], bade[:self.nhand[1]]
         creators = [("vnull,0,%d" % m, "null%d" % m) for m in range(10)] + [
             ("vbool,0,1", "bool"), ("vint,0,-5", "int"), ("vnum,0,3ff8000000000000", "num"), ("vlit,0,%s" % hx("ab"), "lit"),
             ("vlit,0,-", "litnull"), ("vraw,0,4100", "raw"), ("vraw,0,-", "rawnull"), ("vraw,0,", "rawempty"), ("vlit,0,", "litempty"),
@@ -995,7 +1079,7 @@ class C15(Check):
         okuse = [("return", ("fcall", "F9", [I(40)]))]
         C.append(self.mk("argerr_noleak", ["cnew,0", X(0, 0, ARGERR_PROG), "exec,0", "exec,0", "out,0", X(0, 1, okuse), "exec,1", "drop,0,0", "vdump,0",
                                            "rst,0", "exec,0", "xfree,1", "xfree,0", "cfree,0"]))
-        C.append(self.mk("kf_leak_sub", ["cnew,0", XBAD(0, 0, len(badp) - 2, badp[-2], 1), EBAD(0, 0, len(bade) - 1, bade[-1])], {"leaks": {KF_L_SUB}}))
+        C.append(self.mk("kf_leak_sub", ["cnew,0", XBAD(0, 0, len(badp) - 2, badp[-2], 1), EBAD(0, 0, len(bade) - 1, bade[-1])], {"leaks": {KF_L_SUB}, "lsub_n": 2}))
         C.append(self.mk("kf_leak_if", ["cnew,0", XBAD(0, 0, len(badp) - 1, badp[-1], 1)], {"leaks": {KF_L_IF}}))
         # every bad text of the catalog: code, position, symbols left behind, the context stays usable
         probe = [("let", "I1", I(1)), ("return", ("bin", "ADD", ("var", "I1"), I(41)))]
@@ -1003,10 +1087,11 @@ class C15(Check):
             leaks = {KF_L_SUB} if k == len(badp) - 2 else ({KF_L_IF} if k == len(badp) - 1 else set())
             C.append(self.mk("badp_%d" % k, ["cnew,0", "reg,0,0,%s,2,0" % hx("I1"), "vint,0,7", "store,0,0,0", "load,0,0,1", XBAD(0, 0, k, src, 1), XBAD(0, 0, k, src, 0),
                                               "find,0,1,%s" % hx("Q9"), "find,0,2,%s" % hx("V_NEW9"), "find,0,3,%s" % hx("X"), "load,0,1,2", "load,0,0,3",
-                                              X(0, 0, probe), "exec,0", "drop,0,4", "out,0"], {"leaks": leaks}))
+                                              X(0, 0, probe), "exec,0", "drop,0,4", "out,0"], {"leaks": leaks, "lsub_n": 2}))
         for k, src in enumerate(bade):
             leaks = {KF_L_SUB} if k == len(bade) - 1 else set()
-            C.append(self.mk("bade_%d" % k, ["cnew,0", EBAD(0, 0, k, src), E(0, 0, ("bin", "ADD", I(1), I(2))), "etype,0,0", "eval,0,0,0", "acc,0,i"], {"leaks": leaks}))
+            C.append(self.mk("bade_%d" % k, ["cnew,0", EBAD(0, 0, k, src), E(0, 0, ("bin", "ADD", I(1), I(2))), "etype,0,0", "eval,0,0,0", "acc,0,i"], {"leaks": leaks, "lsub_n": 1}))
+        C.extend(self.op_family())
         # truncations: leak verdict only (the model has no parser)
         n = 0
         for pi, p in enumerate(TRUNC_PROGS):
@@ -1019,19 +1104,82 @@ class C15(Check):
         self.stats["truncation_cases"] = n
         return C
 
+    def op_family(self):
+        """Operator-wise rejected (and accepted) texts, GENERATED IN THE MODEL from the typing model: every operator
+        spelling x operand form {literal, variable, parenthesised expression, built-in call, member call} x operand
+        types {integer, string, boolean}^2 x entry point {bloc_parse_expression, bloc_parse_executable}. One case per
+        (spelling, form, entry point): the 9 (3 for a unary operator) type combinations one after the other in ONE
+        context; after every rejected text a good text is parsed and evaluated / run in the same context ("still
+        usable"); an accepted text must parse (and have the static type the model computes). The model's answer for
+        `@i` is a catalog entry iff Typing.acceptBin / acceptUn rejects the operand types (theorem typed_rejection_iff).
+        The left-operand leak pattern (finding C15.leak_sub_operand_type_error) is allowed exactly as many lost
+        objects as the case has texts whose LEFT operand alone is ill-typed."""
+        ops_ = self.opcases()
+        C = []
+        groups = {}
+        for oc in ops_:
+            groups.setdefault((oc["spell"], oc["form"], oc["unary"]), []).append(oc)
+        follow = [("let", "I2", ("bin", "ADD", ("var", "I1"), I(1)))]
+        st = self.stats.setdefault("op_family", {"cases": 0, "rejected_texts": 0, "accepted_texts": 0, "accepted_without_ast_skipped": 0, "left_only_ill_typed": 0})
+        gi = 0
+        for (spell, form, unary), ocs in groups.items():
+            for entry in "ep":
+                ops = ["cnew,0", "reg,0,0,%s,2,0" % hx("I1"), "vint,0,7", "store,0,0,0", "load,0,0,1"]
+                nleak = 0
+                if entry == "e" and form == "var":
+                    # before the variables exist: an undefined symbol, whatever the operand types would be
+                    first = next((o for o in ocs if o["verdict"] == "J"), None)
+                    if first:
+                        ops.append("eparse,0,0,%s,@%d" % (hx(first["esrc"]), first["i"]))
+                    ops += ["reg,0,1,%s,2,0" % hx("V_I9"), "reg,0,2,%s,4,0" % hx("V_S9"), "reg,0,3,%s,1,0" % hx("V_B9")]
+                for oc in ocs:
+                    if oc["verdict"] == "M":
+                        st["accepted_without_ast_skipped"] += 1
+                        continue
+                    rej = oc["verdict"] == "J"
+                    st["rejected_texts" if rej else "accepted_texts"] += 1
+                    if rej and oc["bad"] == "L":
+                        nleak += 1
+                    if entry == "e":
+                        ops.append("eparse,0,0,%s,@%d" % (hx(oc["esrc"]), oc["i"]))
+                        ops += [E(0, 1, ("bin", "ADD", ("var", "I1"), I(2))), "eval,0,1,2", "efree,1"] if rej else ["etype,0,0", "efree,0"]
+                    else:
+                        ops.append("xparse,0,0,%s,@%d,%d" % (hx(oc["psrc"]), oc["i"], 1))
+                        if rej:
+                            ops += ["xparse,0,0,%s,@%d,%d" % (hx(oc["psrc"]), oc["i"], 0), X(0, 1, follow), "exec,1", "xfree,1"]
+                            nleak += oc["bad"] == "L"
+                        else:
+                            ops.append("xfree,0")
+                ops += ["find,0,4,%s" % hx("I1"), "load,0,4,3", "vdump,3", "out,0"]
+                st["cases"] += 1
+                st["left_only_ill_typed"] += nleak
+                C.append(self.mk("optype_%d_%s" % (gi, entry), ops, {"leaks": {KF_L_SUB} if nleak else set(), "lsub_n": nleak, "opfam": "%s/%s/%s" % (spell, form, entry)}))
+            gi += 1
+        self.op_meta = ops_
+        return C
+
     def gen_cases(self):
         badp, bade = self.catalog()
         if not badp:
             return []
         self.badp, self.bade = badp, bade
         cases = self.corpus(badp, bade)
+        # catalog index of the generated entries: hand-written ones first, then the rejected operator cases in order
+        genp, gene, j = [], [], 0
+        for oc in getattr(self, "op_meta", []):
+            if oc["verdict"] == "J":
+                genp.append((self.nhand[0] + j, oc["bad"] == "L"))
+                gene.append((self.nhand[1] + j, oc["bad"] == "L"))
+                j += 1
+        if j and (len(badp) != self.nhand[0] + j or len(bade) != self.nhand[1] + j):
+            self.broken_ties.append("catalog sizes %d/%d do not match hand %r + %d rejected operator cases" % (len(badp), len(bade), self.nhand, j))
         quick = self.tier == "quick"
         nseq = int(os.environ.get("VERIF_C15_N", "4000" if quick else "8000"))
         maxlen = 40 if quick else 200
         for i in range(nseq):
-            g = SeqGen(self.rng, badp, bade, maxlen if i % 4 else max(8, maxlen // 3), leaky=0.01)
+            g = SeqGen(self.rng, badp, bade, maxlen if i % 4 else max(8, maxlen // 3), leaky=0.01, nhand=self.nhand, genp=genp, gene=gene)
             ops = g.run()
-            cases.append(self.mk("s%d" % i, ops, {"leaks": set(g.flags), "random": True}))
+            cases.append(self.mk("s%d" % i, ops, {"leaks": set(g.flags), "lsub_n": g.nleaky, "random": True}))
         self.stats["sequences"] = nseq
         self.stats["max_len"] = maxlen
         return cases
@@ -1139,10 +1287,24 @@ class C15(Check):
         d[ir["leak"]] = d.get(ir["leak"], 0) + 1
         if ir["leak"] == "leak=1":
             allowed = c.meta.get("leaks", set())
-            for kind, frames in leak_records(ir["stderr"]):
+            lsub_left = c.meta.get("lsub_n")      # None: no bound (truncation stream)
+            for rec in leak_records(ir["stderr"]):
+                kind, frames = rec["kind"], rec["frames"]
                 if kind != "Direct":
                     continue
                 fid = next((f for f, pred in LEAK_SIGNATURES if pred(frames)), None)
+                if at_left_operand_site(rec) and (fid is None or KF_L_SUB in allowed):
+                    # (a right operand that is a member call is allocated in Member…Expression::parse, the frame the
+                    # end-of-text finding C15.leak_member_call_eof is named after: the call site decides)
+                    # the PATTERN of C15.leak_sub_operand_type_error: the right operand, allocated below `Q()` on a line
+                    # `new Op…(assertType(result, …, false), assertType(Q(), …))`, one object per left-operand type error
+                    fid = KF_L_SUB
+                    if lsub_left is not None:
+                        lsub_left -= rec["nobj"]
+                        if lsub_left < 0:
+                            self.record(c, "more objects are lost at the left-operand sites (%d more) than the case has left-operand type errors (%d): "
+                                           % (-lsub_left, c.meta.get("lsub_n")) + " <- ".join(frames[:5]), "leak=1", "leak=0", "(end of case)", len(ops), ir)
+                            break
                 if fid and fid in allowed and fid in self.kf:
                     self.known_hits.setdefault(fid, {"what": self.kf[fid]["what"], "example": self.leak_example(c), "impl": "LeakSanitizer: " + " <- ".join(frames[:3])})
                     ls = self.stats.setdefault("leak_sites", {})
